@@ -1,12 +1,12 @@
 #!/bin/bash
-# tools/stageg_prepare.sh <dir> : build the gleece CLI from /repo's working tree, copy the stage-G fixture
+# tools/stageg_prepare.sh <dir> : build the gleece CLI from /repo's working tree (or $VERIF_REPO, used only by tools/try_seed.sh), copy the stage-G fixture
 # project and generate its routers for all five engines into <dir>/project/routes_<engine>.
 set -eu
 DIR="$1"
 export GOFLAGS=-mod=mod GOPROXY=off
 mkdir -p "$DIR"
 cp -r /verif/fixtures/stageg/. "$DIR/"
-(cd /repo && go build -o "$DIR/gleece" .)
+(cd "${VERIF_REPO:-/repo}" && go build -o "$DIR/gleece" .)
 cd "$DIR/project"
 for e in gin echo mux chi fiber; do
   for c in gleece.$e.json gleece.$e.nd.json; do
